@@ -45,14 +45,14 @@ theorem reads_suffix (s : Suffix) (nb : Bool) (hok : sufOk h o s = true) :
     · have : l = [] := List.length_eq_zero_iff.mp hl
       subst this
       simpa using Reads.weaken 1 (Reads.nil cd h' nb)
-    · obtain ⟨⟨⟨hk, hlen⟩, hsp⟩, hint⟩ := hok
+    · obtain ⟨⟨hk, hlen⟩, hsp⟩ := hok
       have hl' : ¬ l = [] := fun e => hl (by simp [e])
       simp only [hl', if_false]
       refine Reads.seg (by simp) (fun rest => ?_) nb
       have hk7 : ¬ s.kind > 7 := by omega
       have hn : ¬ (l.length < 1 ∨ l.length ≥ sufItems h s.kind + 1) := by omega
       have hfl : ¬ (s.kind / 4 % 2 = 1) := by omega
-      have hr := readSufI_wSparseI o (sufItems h s.kind) l rest hsp hint
+      have hr := readSufI_wSparseI o (sufItems h s.kind) l rest hsp
       simp [readSeg, readSuffix, hk7, sufItems_congr sc, hfl, hr]
       exact ⟨hl', by omega⟩
   | dbls l =>
